@@ -384,13 +384,15 @@ pub fn u_count_gaps() -> Universe {
 /// fast paths keyed on the run length, and the handling of what is left over around the run.
 pub fn u_long_runs(nmax: usize) -> Universe {
     let mut w = vec![];
-    for n in 1..=nmax {
+    // every n up to nmax, then the lengths around 64, 128 and 256 (size-keyed fast paths and windows; the repetition search of the subject needs memory cubic in the length, so 258 is the end of what 16 parallel builds can afford)
+    let extra: Vec<usize> = [64usize, 128, 256].iter().flat_map(|p| [p - 1, *p, p + 1, p + 2]).filter(|n| *n > nmax).collect();
+    for n in (1..=nmax).chain(extra) {
         let r = "a".repeat(n);
         for s in [r.clone(), format!("xyz{r}"), format!("{r}xyz"), format!("bcbc{r}xyz"), format!("xyz{r}cdcd"), format!("q{r}q"), format!("{r}b{r}"), format!("{r}{}", "b".repeat(n))] {
             w.push(s);
         }
     }
-    Universe::from_words(&format!("U_longruns: a^n (n=1..={nmax}) bare, after/before xyz, between repeated and unrepeated material, twice, followed by b^n"), w, 1)
+    Universe::from_words(&format!("U_longruns: a^n (n=1..={nmax} and 2^k-1..2^k+2 for 2^k = 64, 128, 256) bare, after/before xyz, between repeated and unrepeated material, twice, followed by b^n"), w, 1)
 }
 
 /// Sets with MANY test cases (parametric families, every n from 2 to nmax, one set per n and family):
@@ -461,4 +463,41 @@ pub fn u_kind_triples() -> Universe {
         }
     }
     Universe { name: format!("U_kindtriples: all {} triples of {} scalar kinds: 6 orderings, {{p,q,r}}, {{pq,qr,rp}}, {{pqr,p,r}}", ks.len() * (ks.len() - 1) * (ks.len() - 2) / 6, ks.len()), words: words_all, sets }
+}
+
+/// Repetitions nested three and four levels deep: ((x^i y)^j z)^k and (((x^2 y)^2 z)^2 w)^2 for x, y, z (, w) drawn from
+/// letters, metacharacters, a backslash and a non-ASCII letter, i, j, k in {2,3}. Printing, escaping and grouping of a
+/// repeated unit recurse over the nesting; one- and two-level universes cannot tell a shallow walk from a deep one.
+pub fn u_nested_rep() -> Universe {
+    let ks = [".", "+", "a", "b", "\\", "\u{e9}", "-", "1"];
+    let mut w = vec![];
+    for x in ks {
+        for y in ks {
+            if y == x {
+                continue;
+            }
+            for z in ks {
+                if z == y {
+                    continue;
+                }
+                for (i, j, k) in [(2, 2, 2), (3, 2, 2), (2, 3, 2), (2, 2, 3)] {
+                    let inner = format!("{}{y}", x.repeat(i));
+                    let mid = format!("{}{z}", inner.repeat(j));
+                    w.push(mid.repeat(k));
+                }
+                for v in ["a", "+"] {
+                    if v == z {
+                        continue;
+                    }
+                    let l1 = format!("{}{y}", x.repeat(2));
+                    let l2 = format!("{}{z}", l1.repeat(2));
+                    let l3 = format!("{}{v}", l2.repeat(2));
+                    w.push(l3.repeat(2));
+                }
+            }
+        }
+    }
+    w.sort();
+    w.dedup();
+    Universe::from_words("U_nest: ((x^i y)^j z)^k and (((x^2 y)^2 z)^2 w)^2 over {. + a b \\ e-acute - 1}, i,j,k in {2,3}", w, 1)
 }
